@@ -76,6 +76,8 @@ func (r *Runner) Do(op *Op) string {
 		mis = r.compose(op)
 	case "copy":
 		mis = r.copy(op)
+	case "list":
+		mis = r.list(op)
 	case "restart":
 		if r.E.StoreKind == "file" {
 			r.E.Restart()
@@ -905,6 +907,26 @@ func (r *Runner) copy(op *Op) string {
 	}
 	r.label("copy-ok")
 	return r.contentWritten(db, dn, obj, resp, rr.Resource, false)
+}
+
+// list: a listing with prefix / delimiter / page size, followed through its page tokens.
+func (r *Runner) list(op *Op) string {
+	max := 0
+	if op.Max != "" {
+		max, _ = strconv.Atoi(op.Max)
+	}
+	if !r.Buckets[op.Bucket] {
+		return "" // listing a bucket that was never created is judged by C11 / C20
+	}
+	st, mis := CheckListing(r.E, op.Bucket, r.M.Names(op.Bucket), ListSpec{Prefix: op.Prefix, Delim: op.Delim, Max: max}, nil)
+	if st.Pages >= 2 {
+		r.label("list-multi-page")
+	}
+	if st.Collapsed {
+		r.label("list-delimiter-collapsed")
+	}
+	r.label("list")
+	return mis
 }
 
 // ---------------------------------------------------------------- file store specials
